@@ -25,6 +25,9 @@ type c07Case struct {
 	// Fault selects one placement when >=0 (replay of a single placement); -1 = enumerate all
 	OnlyPos  int    `json:"only_pos"`
 	OnlyKind string `json:"only_kind,omitempty"`
+	// Splits (engine tikv-regions): region borders of the TiKV mock at internal keys of pool keys (index record or any
+	// revision of the history): the compaction scans per region, borders fall between versions of one key
+	Splits []c03Split `json:",omitempty"`
 }
 
 var c07FaultKinds = []string{"err", "cas", "die", "lost-ack", "unknown-lost"}
@@ -58,6 +61,12 @@ func genC07(t *rapid.T) interface{} {
 			op.Exp = "ok"
 		}
 		c.Hist = append(c.Hist, *op)
+	}
+	if c.Engine == engTiKVRegions {
+		ns := rapid.IntRange(1, 4).Draw(t, "nsplits")
+		for i := 0; i < ns; i++ {
+			c.Splits = append(c.Splits, c03Split{K: DrawIntn(t, len(c.Keys), "splitKey"), Off: rapid.IntRange(-2, nh).Draw(t, "splitOff")})
+		}
 	}
 	c.CSel = rapid.OneOf(rapid.Just(-1), rapid.IntRange(0, 30), rapid.Just(1000)).Draw(t, "csel")
 	np := rapid.IntRange(1, 6).Draw(t, "npost")
@@ -110,7 +119,26 @@ func (e *SeqEnv) c07Reads(revs []uint64, keys []string) (*c07Snap, error) {
 }
 
 func c07Setup(c *c07Case) (*SeqEnv, error) {
-	env, err := NewSeqEnv(SeqOpts{Engine: strings.TrimSuffix(c.Engine, "+metrics"), Keys: c.Keys, UseShim: true, MetricsOutside: strings.HasSuffix(c.Engine, "+metrics"), Backend: BackendOpts{Skipped: c.Skipped}})
+	engine, splits := strings.TrimSuffix(c.Engine, "+metrics"), [][]byte(nil)
+	if engine == engTiKVRegions {
+		engine = EngTiKV
+		for _, sp := range c.Splits {
+			var rev uint64
+			if sp.Off >= 0 {
+				rev = InitRev + 1 + uint64(sp.Off)
+			}
+			splits = append(splits, shimCoder.EncodeObjectKey([]byte(c.Keys[sp.K%len(c.Keys)]), rev))
+		}
+		sort.Slice(splits, func(i, j int) bool { return bytes.Compare(splits[i], splits[j]) < 0 })
+		ded := splits[:0]
+		for i, k := range splits {
+			if i == 0 || !bytes.Equal(k, splits[i-1]) {
+				ded = append(ded, k)
+			}
+		}
+		splits = ded
+	}
+	env, err := NewSeqEnv(SeqOpts{Engine: engine, Keys: c.Keys, UseShim: true, SplitKeys: splits, MetricsOutside: strings.HasSuffix(c.Engine, "+metrics"), Backend: BackendOpts{Skipped: c.Skipped}})
 	if err != nil {
 		return nil, Inconclusivef("engine: %v", err)
 	}
